@@ -73,7 +73,7 @@ def run_common(ctx, prop, files, test):
             ctx.account(big)
             ctx.log("MC_big: %d generated / %d distinct (check only)" % (big.generated, big.distinct))
         d = 16 if q else 24
-        sim = ctx.tlc("histchunk", "HistChunk", "SIM.cfg", simulate=(8 if q else 600), depth=d + 3, workers=8,
+        sim = ctx.tlc("histchunk", "HistChunk", "SIM.cfg", simulate=(5 if q else 600), depth=d + 3, workers=8,
                       constants={"MaxOps": d, "MaxApp": d - 5, "TwoFrom": d - 5}, timeout=(100 if q else 1500))
         ctx.account(sim)
         ctx.log("SIM: %d walks" % len(sim.emitted))
@@ -98,7 +98,7 @@ def run_common(ctx, prop, files, test):
         "consecutive samples one edit apart (two edits for the last append of MC_two), 3 in-order appends exhaustively, longer "
         "histories and 2 out-of-order samples by seeded simulation only",
         "head-internal chunk cuts by size and predicted end time are not modelled (real chunks may be cut more often than the model's)",
-        "stage 2 (real tsdb.DB) replays a deterministic subset of about 1500 histories per run; stage 1 (chunk appenders) all",
+        "stage 2 (real tsdb.DB) replays a deterministic subset of about 800 (quick) / 8000 (thorough) histories per run; stage 1 (chunk appenders) all",
     ]
     return ctx.finish(rule="every maximal history of the exhaustive configurations + seeded walks; each replayed through the chunk "
                            "appenders and (subset) a tsdb.DB, every read compared sample by sample", exhaustive=False)
